@@ -115,7 +115,7 @@ OTHER = {"enum": [("replay::corpus::basic::Tup", "::ext::Tup"), ("replay::corpus
          "containers": [("Option<T>", "::my::Opt<T>"), ("Result<A, B>", "::my::Res<B, A>"), ("Option", "::my::Opt0")],
          "collections": [("BTreeMap<K, V>", "::my::KeyedVec<K, V>"), ("BTreeSet", "::my::Set"), ("Range<I>", "::my::R<I, I>"), ("BinaryHeap<T>", "::my::Heap<::alloc::vec::Vec<T>>")]}
 
-def make_family(name, reg0, rule_list, how="subst"):
+def make_family(name, reg0, rule_list, how="subst", STD=STD):
     ids = list(range(len(reg0)))
     def mk(eng): return regdsl._clone(reg0)
     def run(eng, reg):
@@ -163,6 +163,16 @@ def families(eng, tier, seed):
         for n in ("generics", "modules", "reach", "calls", "cow_generic", "mybox", "enum", "compact_generic", "phantom", "tree", "bits_generic", "assoc_noskip"):
             for k, r in enumerate(generated_rules(C[n])): fams.append(make_family("gen-rule-%s-%d" % (n, k), C[n], [r]))
     for k, (s, t) in enumerate(RULES): fams.append(make_family("rule-generics-%d" % k, C["generics"], [(s, t)]))
+    # custom alloc crate path: resolved arguments that mention Vec/String/Box must be rendered with it
+    ALLOC = Settings(["compact_path ::parity_scale_codec::Compact", "bits_path ::scale_bits::DecodedBits", "codec_attrs", "alloc ::my_alloc", "mod_name rt"])
+    for k in (1, 2, 5, 7, 16): fams.append(make_family("rule-customalloc-generics-%d" % k, C["generics"], [RULES[k]], STD=ALLOC))
+    fams.append(make_family("rule-customalloc-reach", C["reach"], [("replay::corpus::reach::Foo<X>", "::ext::F<::w::W<X>, X>")], STD=ALLOC))
+    fams.append(make_family("rule-customalloc-cow", C["cow_generic"], [(G + "CowG<Z>", "::ext::C<Z>"), (G + "G<A>", "::ext::B<A>")][:1], STD=ALLOC))
+    # types with skipped parameters: the declared source parameter has no resolved argument
+    A = "replay::corpus::assoc::"
+    fams.append(make_family("rule-skipped-param", C["assoc_skip"], [(A + "Hdr<T>", "::ext::H<T>")]))
+    fams.append(make_family("rule-skipped-param-passthrough", C["assoc_skip"], [(A + "Hdr", "::ext::H0")]))
+    fams.append(make_family("rule-noskip-param", C["assoc_noskip"], [(A + "HdrNoSkip<T>", "::ext::H<T, T>")]))
     for k in (0, 1, 7, 16): fams.append(make_family("rule-ifabsent-generics-%d" % k, C["generics"], [RULES[k]], how="subst_if_absent"))
     for k in (2, 8, 17): fams.append(make_family("rule-extend-generics-%d" % k, C["generics"], [RULES[k]], how="subst_extend"))
     pairs = [(0, 7), (2, 8), (1, 16), (6, 10), (3, 15)]
